@@ -12,3 +12,12 @@ pub assume_specification [String::as_bytes] (s: &String) -> (r: &[u8])
 pub proof fn axiom_utf8_len(s: Seq<char>)
     ensures utf8(s).len() <= 0x7fff_ffff_ffff_ffff
 { }
+// T7x (add_directory): `s.chars().last()` and `s + "/"` -- ASSUMED std String semantics
+#[verifier::external_body]
+pub fn shim_str_last_char(s: &String) -> (r: Option<char>)
+    ensures (s@.len() == 0 ==> r is None), (s@.len() > 0 ==> r == Some(s@.last()))
+{ s.chars().last() }
+#[verifier::external_body]
+pub fn shim_string_append_slash(s: String) -> (r: String)
+    ensures r@ == s@.push('/')
+{ s + "/" }
